@@ -62,10 +62,10 @@ PStartDespiteCancel(g) == /\ AllowBadStart /\ Pc(g) = "rejected" /\ SetG(g, [gst
 FinalCheck == /\ final = "no" /\ eret = "none" /\ Pc(0) = "out"
               /\ final' = (IF cancelled THEN "cancelled" ELSE "clean")
               /\ UNCHANGED <<vars, gst, eret, leaked, badStart>>
-EvalReturn(e) == /\ eret = "none" /\ e \in {"ok", "intr", "other"} /\ Pc(0) = "out"
-                 /\ (e = "ok" => final = "clean")
-                 /\ (e = "intr" => cancelled)
-                 /\ eret' = e
+RetGuards(e) == /\ eret = "none" /\ e \in {"ok", "intr", "other"}
+                /\ (e = "ok" => final = "clean")
+                /\ (e = "intr" => cancelled)
+EvalReturn(e) == /\ RetGuards(e) /\ Pc(0) = "out" /\ eret' = e
                  /\ UNCHANGED <<vars, gst, final, leaked, badStart>>
 \* a closure callback whose only pipeline was rejected: the worker ends `interrupted` without its callback
 \* ever being "inside" (no CbStart)
@@ -89,8 +89,16 @@ PStartObs(g) == /\ Pc(g) = "entered" /\ SetG(g, [gst[g] EXCEPT !.pc = "out"])
                 /\ (gst[g].after => AllowBadStart)
                 /\ UNCHANGED <<vars, final, eret, leaked>>
 
+\* Eval returns; the last pipeline entered on goroutine 0 may have been rejected without a further hook.
+\* ("ok" without a clean final check is left to the invariant ReturnInterrupted, so that it has a name.)
+EvalReturnObs(e) == /\ eret = "none" /\ e \in {"ok", "intr", "other"} /\ (e = "intr" => cancelled) /\ eret' = e
+                    /\ \/ Pc(0) = "out" /\ UNCHANGED gst
+                       \/ Pc(0) = "entered" /\ cancelled /\ e # "ok" /\ SetG(0, [gst[0] EXCEPT !.pc = "out"])
+                    /\ UNCHANGED <<vars, final, leaked, badStart>>
+
 NoStartAfterCancel == ~badStart
-ReturnInterrupted == (eret # "none" /\ final = "cancelled") => eret = "intr"
+ReturnInterrupted == /\ (eret # "none" /\ final = "cancelled") => eret = "intr"
+                     /\ eret = "ok" => final = "clean"
 AllGoroutinesDone == /\ eret # "none" => \A i \in In : wpc[i] \notin {"spawned", "run", "flag"}
                      /\ leaked = 0
 =============================================================================
